@@ -25,10 +25,10 @@ Theorem C03_replace_part : forall ps n f c first last s len0,
   part_pos (conc ps n f c) first <= en (conc ps n f c) last.
 Proof. exact replace_part_conc. Qed.
 
-(* start_part(new_pt), append, save_part on an object whose last written part is m-1 >= HOST: the
+(* start_part(new_pt), append, save_part on an object whose last written part is m-1 >= HOST_START: the
    offsets of the skipped parts are filled, the separator is written, the text appended, the end fixed *)
 Theorem C03_write_last_part : forall ps m f c new_pt v s0,
-  PW ps m -> (6 <= m)%nat -> (m <= new_pt <= 10)%nat ->
+  PW ps m -> (5 <= m)%nat -> (m <= new_pt <= 10)%nat ->
   s_r s0 = conc ps m f c -> s_last s0 = (m - 1)%nat ->
   let s1 := ser_save_part (do_append (ser_start_part s0 new_pt) v) in
   s_r s1 = conc (setp ps new_pt (sepc new_pt ++ v)) (S new_pt) f c /\ s_last s1 = new_pt.
@@ -114,6 +114,23 @@ Theorem C03_password_setter_repr : forall u file v,
   s_r (run true (init_sst (repr_of u) file) [OStartPart P_PASSWORD; OAppend v; OSavePart]) = repr_of (set_password u v).
 Proof. exact password_setter_repr. Qed.
 
+(* host / hostname setter on a URL whose host is not null (both ways: the host is the last text of the URL, or
+   text follows it): hostStart, the serialized host, hostDone(host type) - the host text, the host-type bits of
+   flags_ and nothing else change; no "/." prefix appears *)
+Theorem C03_host_setter_repr : forall u file H, scheme u <> [] -> is_some (uhost u) = true ->
+  norm_tail (s_r (run true (init_sst (repr_of u) file)
+                    [OHostStart; OAppend (host_serialize H); OHostDone (host_type_num H)])) =
+  repr_of (set_host u (Some H)).
+Proof. exact host_setter_repr. Qed.
+
+(* protocol setter: start_scheme, the new scheme, save_scheme - piece 0 is replaced, every later offset moves by the
+   difference of the lengths, the cached is_file_scheme() follows the new scheme *)
+Theorem C03_setter_protocol_pieces : forall ps n f c file sch,
+  PW ps n -> sch <> [] ->
+  let s1 := run true (init_sst (conc ps n f c) file) [OStartScheme; OAppend sch; OSaveScheme] in
+  s_r s1 = conc (setp ps 0 sch) n f c /\ s_file s1 = is_file_str sch.
+Proof. exact setter_protocol. Qed.
+
 (* non-vacuity of the record-level premises, and the theorems evaluated on http://h/p: username "u", then hash "f" *)
 Example C03_record_example :
   let u := mkurl (lit "http") [] [] (Some (HDomain (lit "h"))) None (PList [lit "p"]) None None in
@@ -149,5 +166,7 @@ Print Assumptions C03_search_setter_repr.
 Print Assumptions C03_port_setter_repr.
 Print Assumptions C03_username_setter_repr.
 Print Assumptions C03_password_setter_repr.
+Print Assumptions C03_host_setter_repr.
+Print Assumptions C03_setter_protocol_pieces.
 Print Assumptions C03_record_example.
 Print Assumptions C03_pieces_example.
